@@ -514,6 +514,77 @@ impl BatchMerkleProof {
     }
 }
 
+// BatchMerkleProof::serialize_nodes: the writer deserialize reads back - one byte for the number of node vectors, per vector
+// one byte for its length and then the digests' encodings; the two assertions (at most 255 vectors / digests per vector) are
+// the documented pre-condition.
+pub uninterp spec fn enc_d(d: D) -> Seq<u8>;
+pub open spec fn enc_ds(v: Seq<D>) -> Seq<u8>
+    decreases v.len()
+{
+    if v.len() == 0 { Seq::<u8>::empty() } else { enc_ds(v.drop_last()) + enc_d(v.last()) }
+}
+pub open spec fn enc_nv(v: Seq<D>) -> Seq<u8> { seq![v.len() as u8] + enc_ds(v) }
+pub open spec fn enc_nvs(v: Seq<Seq<D>>) -> Seq<u8>
+    decreases v.len()
+{
+    if v.len() == 0 { Seq::<u8>::empty() } else { enc_nvs(v.drop_last()) + enc_nv(v.last()) }
+}
+impl D {
+    // contract of Serializable::to_bytes for a digest
+    #[verifier::external_body]
+    pub fn to_bytes(&self) -> (r: Vec<u8>) ensures r@ == enc_d(*self) { unimplemented!() }
+}
+impl BatchMerkleProof {
+    //@@ extract anchor="pub fn serialize_nodes(&self) -> Vec<u8>"
+    //@@ rewrite-re "assert!\(([^,]+),[^;]*\);" => "if !(\1) { must_not_panic(); }"
+    //@@ rewrite "let mut result = Vec::new();" => "let mut result: Vec<u8> = Vec::new();"
+    //@@ itername 1 it
+    //@@ itername 2 jt
+    //@@ loop 1
+    //@@|            invariant
+    //@@|                0 <= it.index@ <= self.nodes@.len(), self.nodes.len() <= 255,
+    //@@|                forall|t: int| 0 <= t < self.nodes@.len() ==> (#[trigger] self.nodes@[t]).len() <= 255,
+    //@@|                result@ == seq![self.nodes.len() as u8] + enc_nvs(nodes_view(self.nodes@).take(it.index@)),
+    //@@ loopstart 1
+    //@@|            proof { assert(*nodes == self.nodes@[it.index@]); }
+    //@@|            let ghost r0 = result@;
+    //@@ loop 2
+    //@@|                invariant
+    //@@|                    0 <= jt.index@ <= nodes@.len(),
+    //@@|                    result@ == r0 + seq![nodes.len() as u8] + enc_ds(nodes@.take(jt.index@)),
+    //@@ loopstart 2
+    //@@|                proof { assert(*node == nodes@[jt.index@]); }
+    //@@|                let ghost r1 = result@;
+    //@@ loopend 2
+    //@@|                proof {
+    //@@|                    let j = jt.index@;
+    //@@|                    assert(nodes@.take(j + 1).drop_last() =~= nodes@.take(j));
+    //@@|                    assert(nodes@.take(j + 1).last() == nodes@[j]);
+    //@@|                    assert(result@ =~= r0 + seq![nodes.len() as u8] + enc_ds(nodes@.take(j + 1)));
+    //@@|                }
+    //@@ loopend 1
+    //@@|            proof {
+    //@@|                let k = it.index@;
+    //@@|                let nv = nodes_view(self.nodes@);
+    //@@|                assert(nodes@.take(nodes@.len() as int) =~= nodes@);
+    //@@|                assert(nv.take(k + 1).drop_last() =~= nv.take(k));
+    //@@|                assert(nv.take(k + 1).last() == nodes@);
+    //@@|                assert(result@ =~= seq![self.nodes.len() as u8] + enc_nvs(nv.take(k + 1)));
+    //@@|            }
+    //@@ tail
+    //@@|        proof { assert(nodes_view(self.nodes@).take(self.nodes@.len() as int) =~= nodes_view(self.nodes@)); }
+    pub fn serialize_nodes(&self) -> (r: Vec<u8>)
+        requires
+            self.nodes.len() <= 255,
+            forall|t: int| 0 <= t < self.nodes@.len() ==> (#[trigger] self.nodes@[t]).len() <= 255,
+        ensures
+            r@ == seq![self.nodes.len() as u8] + enc_nvs(nodes_view(self.nodes@)),
+    {
+        proof { assert(nodes_view(self.nodes@).take(0) =~= Seq::<Seq<D>>::empty()); }
+        /*@@body*/
+    }
+}
+
 proof fn containerv_canary_must_fail(b: Seq<u8>, rest: Seq<u8>)
     requires prefix_rt()
     ensures dec_v16(enc_u16(b.len() as u16) + b + rest) == Some((b, rest))
